@@ -139,7 +139,8 @@ def run(chk):
         chk.ob('C09.a', sub, not problems,
                chk.key(ent, 'C09.a', fn, 'leaf-disagrees:%s:%s' % (show_value(lf.value, prog), first.split(' (')[0])),
                'the decoder %s' % first, site=sp,
-               detail={'leaf': dump_leaf(lf, prog, na), 'all_problems': sorted(problems)[:20]})
+               detail={'leaf': dump_leaf(lf, prog, na), 'all_problems': sorted(problems)[:20]},
+               show='leaf [%s] -> %s agrees with the reference on every class it contains' % ('; '.join(guard_text(lf, na)[-4:]), show_value(lf.value, prog)))
     chk.evaluations += n_combos
     chk.extra['class_combinations_evaluated'] = n_combos
     chk.floor('leaves of decode_packet', len(leaves), 100)
